@@ -316,7 +316,10 @@ def gitconfig_part(chk, n_hist, length):
                     hist.append("reopen")
                 key = chk.rng.choice(["displayname", "comment", "color", "description", "order"])
                 val = chk.rng.choice(COLORS) if key == "color" else chk.rng.choice(ORDERS) if key == "order" else \
-                    chk.rng.choice([t for t in TEXTS if ";" not in t and "\n" not in t])
+                    chk.rng.choice([t for t in TEXTS if ";" not in t and ("\n" not in t or key == "description")])
+                if i < 2 and h % 2 == 0:
+                    # the description lives in a file of its own (.git/description): several lines are one value
+                    key, val = "description", ["two\nlines", "three\n\nlines"][i]
                 try:
                     if key == "order":
                         store.config.set_order(val)
